@@ -1050,7 +1050,7 @@ def foreign_ke_case(target, group):
     if len(b.kernel.sad) != n_sad:
         bad.append(('kernel-touched', 'SAD went from %d to %d entries' % (n_sad, len(b.kernel.sad))))
     return dict(outcome=(target, group, len(bad)),
-                found=[('foreign-ke:%s:group-%d:%s' % (target, 'unimplemented' if group not in (14, 15, 16, 17, 18, 19, 20, 21) else group, e), text)
+                found=[('foreign-ke:%s:group-%s:%s' % (target, 'unimplemented' if group not in (14, 15, 16, 17, 18, 19, 20, 21) else group, e), text)
                        for e, text in bad])
 
 
